@@ -129,6 +129,8 @@ MUTANTS = [
                                        "            except IdentifierNotLocked:\n                warn_msg = (\n                    f\"Orphan pid reference file found for pid: {pid}. Skipping object deletion. \"")]),
     ("C11-doc-name-from-pid-only", "C11", [("        pid_doc = self._computehash(pid + checked_format_id)\n\n        sync_begin_debug_msg = (\n            f\" Adding pid: {pid} to locked list, with format_id: {checked_format_id} with doc \"",
                                             "        pid_doc = self._computehash(pid)\n\n        sync_begin_debug_msg = (\n            f\" Adding pid: {pid} to locked list, with format_id: {checked_format_id} with doc \"")]),
+    ("C10-cid-list-rewritten-in-place", "C10", [("                    tmp_root_path = self._get_store_path(\"refs\") / \"tmp\"\n                    with self._mktmpfile(tmp_root_path) as tmp_file:\n                        tmp_file_path = tmp_file.name\n                    with open(tmp_file_path, \"w\", encoding=\"utf8\") as tmp_ref_file:\n                        tmp_ref_file.writelines(new_pid_lines)\n                    shutil.move(tmp_file_path, refs_file_path)\n",
+                                                 "                    ref_file.seek(0)\n                    ref_file.writelines(new_pid_lines)\n                    ref_file.truncate()\n")]),
     ("C11-retrieve-ignores-default-ns", "C11", [("            metadata_document_name = self._computehash(pid + self.sysmeta_ns)\n        else:\n            metadata_document_name = self._computehash(pid + checked_format_id)",
                                                  "            metadata_document_name = self._computehash(pid)\n        else:\n            metadata_document_name = self._computehash(pid + checked_format_id)")]),
     ("C12-metadata-written-in-place", "C12", [("                shutil.move(metadata_tmp, full_path)\n", "                shutil.copyfile(metadata_tmp, full_path)\n                os.remove(metadata_tmp)\n")]),
